@@ -98,6 +98,37 @@ func run(repo, rt, out string) error {
 			return err
 		}
 		local[p.path] = pi.pkg
+		// generated file: registers every package-level variable with the runtime
+		var gb strings.Builder
+		fmt.Fprintf(&gb, "package %s\n\nimport verifrt %q\n\nfunc init() {\n", pi.pkg.Name(), rtPath)
+		nreg := 0
+		for i, f := range pi.files {
+			if isSkipped(pi.names[i]) {
+				continue
+			}
+			for _, d := range f.Decls {
+				gd, ok := d.(*ast.GenDecl)
+				if !ok || gd.Tok != token.VAR {
+					continue
+				}
+				for _, sp := range gd.Specs {
+					for _, n := range sp.(*ast.ValueSpec).Names {
+						if n.Name != "_" {
+							fmt.Fprintf(&gb, "\tverifrt.RegisterGlobal(%q, &%s)\n", pi.pkg.Name()+"."+n.Name, n.Name)
+							nreg++
+						}
+					}
+				}
+			}
+		}
+		gb.WriteString("}\n")
+		if nreg > 0 {
+			gf := filepath.Join(out, pi.pkg.Name()+"__verif_globals_gen.go")
+			if err := os.WriteFile(gf, []byte(gb.String()), 0o644); err != nil {
+				return err
+			}
+			overlay[filepath.Join(p.dir, "verif_globals_gen.go")] = gf
+		}
 		for i, f := range pi.files {
 			src, err := instrument(pi, f)
 			if err != nil {
